@@ -61,7 +61,13 @@ def hostile_reply(rng) -> t.Tuple[bytes, str]:
         towers = [rpce.std_tower(rpce.ISD_KEY_IF, rpce.NDR20, 49667)]
     base = bytearray(rpce.ndr64_ept_map_response(towers, 0))
     big = rng.choice((2**16, 2**32, 2**40, 2**63, 2**64 - 1, 2**20, 10**6))
-    mode = rng.choice(("actual", "actual-short", "max", "num", "tower-len", "floor-count", "floor-len", "trunc", "zeros", "random"))
+    mode = rng.choice(("actual", "actual-short", "max", "num", "tower-len", "floor-count", "floor-len", "trunc", "zeros", "random", "overlap"))
+    if mode == "overlap":
+        # many towers with tiny declared lengths whose floor counts reach to the end of the reply (superlinear if the tail is re-read per tower)
+        from checks import epmstub
+
+        shape = rng.choice(sorted(epmstub.SHAPES))
+        return epmstub.SHAPES[shape](rng.choice((1, 2, 4, 8, 12))), "overlap"
     if mode == "actual":
         base[40:48] = struct.pack("<Q", big)
     elif mode == "actual-short":
@@ -136,12 +142,54 @@ def run_seq(case) -> dict:
             "vtime_ns": world.stats.get("vtime_ns", 0)}
 
 
+def run_threads(case) -> dict:
+    """["threads", seed, n, policy]: n caller threads of one process look the endpoint up at the same time (sync API); the mapper
+    announces a different port to each request and delivers its replies in several segments; simworld.threads decides every
+    pre-emption.  Every announced port must be dialled exactly once (nobody acts on somebody else's answer)."""
+    import dpapi_ng._client as dclient
+
+    from checks import plan as P
+    from simworld import threads as simthreads
+
+    _, seed, n, policy = case
+    rng = random.Random(seed)
+    world = W.World(seed)
+    sd = dtyp.target_sd(offline.SID_A)
+    ports = rng.sample(range(20000, 60000), n)
+    replies = []
+    for p in ports:
+        towers, _e = wellformed_towers(rng)
+        towers = [rpce.std_tower(rpce.ISD_KEY_IF, rpce.NDR20, p)] + [tw for tw in towers if rpce.tower_tcp_port(tw) is None]
+        replies.append(rpce.ndr64_ept_map_response(towers, 0))
+    dc = refdc.RefDC(world, [], host=DC, epm={"raw_replies": replies})
+    world.routes.pop((DC, dc.gkdi_port), None)
+    world.default_delivery = {"mode": "rand", "seed": seed & 0xFFFF, "bias": rng.choice(("small", "header", "geo"))}
+    tsim = simthreads.ThreadSim(random.Random(seed ^ 0xC18), P.SRC_PREFIX(), policy, on_switch=lambda s_, a, b_: world.log("thread.switch", s_, a, b_))
+    with world.installed():
+        try:
+            res = tsim.run([(lambda: drive.classify(lambda: dclient._sync_get_key(DC, sd, None, 1, 2, 3, auth_protocol="negotiate"))) for _ in range(n)])
+        except simthreads.Wedged as e:
+            raise common.HarnessError(str(e))
+    dialled = sorted(a[1] for a in world.connect_attempts if a[1] != 135)
+    viol = None
+    if dialled != sorted(ports):
+        outs = [(o.brief() if o is not None else repr(exc)) for o, exc in res]
+        viol = common.violation("C18", "port", "threads", "wrong-port", "", "",
+                                f"the mapper announced ports {sorted(ports)} (one per lookup) but the {n} concurrent lookups dialled {dialled}; outcomes {outs}; "
+                                f"{len(tsim.switches)} pre-emptions, schedule={tsim.script()['switches'][:6]}")
+    return {"viol": viol, "digest": world.digest() + str(dialled), "key": common.key_hash(case), "sched_key": common.key_hash(tsim.switches) if tsim.switches else None,
+            "fired": {"thread_preemptions": len(tsim.switches), "seg": world.stats.get("seg", 0)}, "probes": {"kind_threads": 1, "thread_overlap": tsim.overlap},
+            "vtime_ns": 0, "_script": tsim.script()}
+
+
 def run(case) -> dict:
     """["wf", flavour, seed, status] | ["hostile", flavour, seed] | ["trunc", flavour, seed, k]"""
     import dpapi_ng._client as dclient
 
     if case[0] == "seq":
         return run_seq(case)
+    if case[0] == "threads":
+        return run_threads(case)
     kind, fl, seed = case[0], case[1], case[2]
     rng = random.Random(seed)
     world = W.World(seed)
@@ -154,7 +202,10 @@ def run(case) -> dict:
         status = case[3]
         reply = rpce.ndr64_ept_map_response(towers, status)
         dc = refdc.RefDC(world, [], host=DC, epm={"raw_reply": reply})
-        label = f"towers={len(towers)}"
+        # alloc_hint of the Response PDU is advisory: smaller than the stub, zero, or exact - the answer is the same
+        hint = (None, None, 4, 8, 1, "zero", 20)[seed % 7]
+        dc.epm_server.knobs["alloc_hint_unsealed"] = hint
+        label = f"towers={len(towers)} alloc_hint={'exact' if hint is None else ('0' if hint == 'zero' else 'len-%d' % hint)}"
     elif kind == "hostile":
         reply, label = hostile_reply(rng)
         dc = refdc.RefDC(world, [], host=DC, epm={"raw_reply": reply})
@@ -179,6 +230,8 @@ def run(case) -> dict:
     dialled = att[1][1] if len(att) > 1 else None
     viol = None
     probes: t.Dict[str, int] = {"kind_" + kind: 1}
+    if kind == "wf" and "alloc_hint=len-" in label:
+        probes["alloc_hint_short"] = 1
 
     def V(clause, cond, detail):
         et, frame = drive.exc_sig(out)
@@ -212,7 +265,11 @@ class C18(common.Check):
     rule = ("case = ept_map reply served to the real first hop of _sync_get_key/_async_get_key. Well-formed (reference-encoded): 0..6 towers, 2..7 "
             "floors of known and unknown protocols with payloads 0..11 bytes (every tower-length residue mod 8), TCP floor first / last / "
             "anywhere / absent, status 0 and error codes: the port dialled next (observed at the network seam) must be the TCP port of the first "
-            "tower with a TCP floor; error status or no TCP floor must raise without dialling. Hostile: tower / max / actual counts and tower "
+            "tower with a TCP floor; error status or no TCP floor must raise without dialling; the Response PDU's advisory alloc_hint is exact, "
+            "zero or smaller than the stub; sequences of lookups in one process whose answers change; 2..3 caller threads looking the endpoint "
+            "up at the same time (sync API, deterministic thread scheduler, segmented replies) while the mapper announces a different port "
+            "to each: every announced port must be dialled exactly once. Hostile: many towers with tiny declared lengths whose floor counts "
+            "reach to the end of the reply; tower / max / actual counts and tower "
             "lengths rewritten to {2^16..2^64-1} over short bodies, floor counts 0xFFFF, floor lengths past the end, truncation at every "
             "offset, zeros, PRNG bytes: traced lines <= 60000+300*(len+500), address-space growth <= 64MiB+4000*len. Non-trivial = every case; "
             "distinct = distinct (kind, seed, flavour).")
@@ -220,7 +277,7 @@ class C18(common.Check):
                   "endpoint mapper": "Byzantine scripted peer / reference encoder (ref.rpce)", "network seam": "simulated: the dialled port is an observation",
                   "budgets": "sys.settrace line counter (dpapi_ng frames) and address-space high-water mark"}
     assumptions = ["budgets are affine in the reply length with constants > 20x the maximum observed on well-formed replies"]
-    required_fired = ("port_expected", "must_raise", "kind_hostile", "kind_trunc", "kind_seq", "seq_error_after_success", "hostile_actual", "hostile_floor-count", "hostile_tower-len")
+    required_fired = ("port_expected", "must_raise", "kind_hostile", "kind_trunc", "kind_seq", "seq_error_after_success", "hostile_actual", "hostile_floor-count", "hostile_tower-len", "hostile_overlap", "kind_threads", "thread_overlap", "alloc_hint_short")
 
     def cases(self, tier, seed):
         rng = prng.stream(seed, "C18")
@@ -233,6 +290,10 @@ class C18(common.Check):
             out.append(["hostile", "sync" if i % 2 else "async", rng.getrandbits(30)])
         for i in range(300 if tier == "quick" else 10000):
             out.append(["seq", "sync" if i % 2 else "async", rng.getrandbits(30), [rng.choice((0, 0, 0x16C9A0D6, 1)) for _ in range(rng.randint(2, 4))]])
+        from checks import threadpure
+
+        for k in range(300 if tier == "quick" else 15000):
+            out.append(["threads", rng.getrandbits(30), 2 + k % 2, threadpure.policy_for(k)])
         for s in range(6 if tier == "quick" else 60):
             sd_ = rng.getrandbits(30)
             for k in range(0, 600):
@@ -253,7 +314,15 @@ class C18(common.Check):
                 except Exception:  # noqa: BLE001 - reported by the workers
                     pass
 
+    def shrink_threads(self, case):
+        from checks import threadpure
+
+        yield from threadpure.shrinks(case, 3, None, run_threads)
+
     def shrink(self, case):
+        if case[0] == "threads":
+            yield from self.shrink_threads(case)
+            return
         if case[1] == "async":
             yield [case[0], "sync"] + case[2:]
 
